@@ -663,6 +663,11 @@ func (c *Ctx) ruleC14NameIsPath() {
 			case strings.HasSuffix(full, "jsight-schema-core/fs.NewFile") && len(call.Args) == 2:
 				rc, _ := definingCall(f, call.Args[1])
 				if rc == nil {
+					if direct, isCall := ast.Unparen(call.Args[1]).(*ast.CallExpr); isCall {
+						rc = direct
+					}
+				}
+				if rc == nil {
 					// a content variable that is assigned more than once, one of the assignments being a file read: the
 					// bytes are changed on the way (trimmed, a BOM cut off): every offset - the lines of all errors and
 					// traces in that file - is then counted in something else than the file on disk
@@ -698,6 +703,27 @@ func (c *Ctx) ruleC14NameIsPath() {
 					return true // content not read from a path here (virtual file, placeholder)
 				}
 				rcal := callee(pk, rc)
+				// a file object wrapped again: content taken from <file>.Content(). The new object stands for the same
+				// file on disk, so it must carry the same name, byte for byte.
+				if rcal != nil && rcal.Name() == "Content" && rcal.Pkg() != nil && strings.HasSuffix(rcal.Pkg().Path(), "jsight-schema-core/fs") {
+					n++
+					same := false
+					if csel, ok := ast.Unparen(rc.Fun).(*ast.SelectorExpr); ok {
+						if nc, ok := ast.Unparen(unalias(f, call.Args[0])).(*ast.CallExpr); ok {
+							if ncal := callee(pk, nc); ncal != nil && ncal.Name() == "Name" && len(nc.Args) == 0 {
+								if nsel, ok := ast.Unparen(nc.Fun).(*ast.SelectorExpr); ok && c.stableExpr(f, nsel.X, nil) == c.stableExpr(f, csel.X, nil) {
+									same = true
+								}
+							}
+						}
+					}
+					if same {
+						r.Ok("C14-NAME-IS-PATH", key, "a copy of a file object under the same name", c.pos(call.Pos()))
+					} else {
+						r.Bad("C14-NAME-IS-PATH", key, "the content of the file object "+exprString(rc.Fun)+" is given another name ("+exprString(call.Args[0])+"): INCLUDE parameters are resolved against the directory part of the name, which is then no longer the directory the file was read from", c.pos(call.Pos()))
+					}
+					return true
+				}
 				if rcal == nil || !fsPrimitive(rcal) || len(rc.Args) < 1 {
 					return true
 				}
